@@ -600,6 +600,7 @@ def run(tier, seed):
     from props import c02_model
     cap = c02_model.capacity_submodel(tier, seed, wd, acc, run_all, mkjob, notes)
     con = c02_model.contracts(tier, seed, wd, acc, run_all, mkjob, notes)
+    nest = c02_model.nest_family(tier, seed, wd, acc, run_all, mkjob, notes, con.pop("tlc_out"))
     conf = c02_model.repaired_conformance(tier, wd, notes)
     res.states = cap.get("states", 0) + con.get("states", 0) + (conf.get("states") or 0)
     res.transitions = cap.get("generated", 0) + con.get("generated", 0) + (conf.get("generated") or 0)
@@ -655,6 +656,7 @@ def run(tier, seed):
         "capacity_submodel": cap,
         "contract_table": con,
         "repeat_arm_conformance": conf,
+        "chordsv2_nested_position_family": nest,
         "crash_signatures": crash_report,
         "samples": ([{"crash": c["signature"], "cfg": c["cfg"][:600], "history": c["history"][:20]} for c in crash_report[:4]] +
                     [{"random_config": True, "note": "see generator stats"}])[:8],
